@@ -85,6 +85,30 @@ def emit(sj, header='<hfsm2/machine.hpp>'):
     out.append('  const int RP[][2] = { %s };' % (', '.join('{%d,%d}' % p for p in rpairs) or '{0,0}'))
     out.append('  auto restarted = [&](int r) { const int SUB[][2] = { %s }; for (auto& e : SUB) if (e[0] == r && m.isActive((hfsm2::StateID)e[1]) && m.activeSubState((hfsm2::StateID)e[1]) != 0) return false; return true; };' % (', '.join('{%d,%d}' % (r, c) for r, cs in comp_in.items() for c in cs) or '{-1,0}'))
     out.append('  for (int i = 0; i < %d; ++i) { for (int o = 0; o < 2; ++o) { if (o == 0) { m.changeTo((hfsm2::StateID)RP[i][0]); m.restart((hfsm2::StateID)RP[i][1]); } else { m.restart((hfsm2::StateID)RP[i][1]); m.changeTo((hfsm2::StateID)RP[i][0]); } m.update(); ++probes; if (!chain(RP[i][0]) || !chain(RP[i][1]) || !restarted(RP[i][1])) ++probeFail; } }' % len(rpairs))
+    # the same with a COMPOSITE region as lowest common ancestor: the later request wins there, so after changeTo(leaf); restart(region) the region is
+    # active and restarted (its composites were first moved off prong 0). Unit / prong offsets of the two branches must not overlap (seeded change C17f).
+    ccand = []
+    for x in leaves:
+        ax = anc(x)
+        for rn in nodes:
+            if rn['kind'] == 'L' or rn['id'] == 0 or rn['id'] in ax: continue
+            ar = set(anc(rn['id']))
+            lca = next(i for i in ax if i in ar)
+            between = [i for i in anc(rn['id'])[1:] if i != lca and i not in ax]
+            # only orthogonal regions between the common ancestor and the region: with a composite region in between the unchanged library loses the
+            # later request (known finding of C02, repro/C02_batch_into_active_orthogonal.cpp), which says nothing about identifiers
+            if nodes[lca]['kind'] == 'C' and x not in shp.subtree(nodes, rn['id']) and all(nodes[i]['kind'] == 'O' for i in between): ccand.append((x, rn['id']))
+    # curated structures only: they do not depend on the seed, so neither does the verdict of this probe
+    fixed_shape = sj['name'].startswith('id_')
+    rr.shuffle(ccand); cpairs = ccand[:150] if fixed_shape and sum(1 for n in nodes if n['kind'] == 'C') >= 2 else []
+    moves = []
+    for x, r in cpairs:
+        for c in shp.subtree(nodes, r):
+            if nodes[c]['kind'] == 'C' and len(nodes[c]['children']) > 1: moves.append((r, nodes[c]['children'][-1]))
+    moves = sorted(set(moves))
+    out.append('  const int CP[][2] = { %s }; const int MOVES[][2] = { %s };' % (', '.join('{%d,%d}' % p for p in cpairs) or '{0,0}', ', '.join('{%d,%d}' % p for p in moves) or '{-1,0}'))
+    out.append('  auto restarted2 = [&](int r) { const int SUB[][2] = { %s }; for (auto& e : SUB) if (e[0] == r && m.isActive((hfsm2::StateID)e[1]) && m.activeSubState((hfsm2::StateID)e[1]) != 0) return false; return true; };' % (', '.join(sorted(set('{%d,%d}' % (r, c) for x, r in cpairs for c in shp.subtree(nodes, r) if nodes[c]['kind'] == 'C'))) or '{-1,0}'))
+    out.append('  for (int i = 0; i < %d; ++i) { for (auto& mv : MOVES) if (mv[0] == CP[i][1]) m.immediateChangeTo((hfsm2::StateID)mv[1]); m.changeTo((hfsm2::StateID)CP[i][0]); m.restart((hfsm2::StateID)CP[i][1]); m.update(); ++probes; if (!chain(CP[i][1]) || !restarted2(CP[i][1])) ++probeFail; }' % len(cpairs))
     out.append('  printf("\\"probes\\":%d,\\"probe_fail\\":%d,", probes, probeFail);')
     out.append('  const auto& st = m.structure(); printf("\\"names\\":["); for (unsigned i = 0; i < st.count(); ++i) printf("%s\\"%s\\"", i ? "," : "", st[i].name ? st[i].name : ""); printf("],");')
     out.append('  printf("\\"active\\":["); for (int i = 0; i < %d; ++i) printf("%%s%%d", i ? "," : "", (int)m.isActive((hfsm2::StateID)i)); printf("],\\"asserts\\":%%d}\\n", g_bad);' % len(nodes))
@@ -103,6 +127,12 @@ def id_shapes(seed, n_random, big):
         'o9o2': O([O([L] * 8 + [C('Composite', [L, L])]), O([C('Composite', [L, L]), C('Resumable', [L, L])]), C('Composite', [L, L])]),
         'o17o3': O([O([C('Composite', [L, L])] + [L] * 16, True), O([C('Composite', [L, L]), L, C('Composite', [L, L])])]),
         'o8last': C('Composite', [L, O([C('Composite', [L, L])] * 1 + [L] * 7)]),
+        # a composite region whose LEFT half of sub-states holds an orthogonal region of two / three bit units and whose RIGHT half holds orthogonal regions:
+        # the right half's unit offset must skip all units of the left one (seeded change C17f)
+        'c_o9_o': C('Composite', [O([L] * 8 + [C('Composite', [L, L])]), O([O([C('Composite', [L, L]), C('Composite', [L, L])]), L])]),
+        'c_o17_o': C('Composite', [O([L] * 17), O([O([C('Composite', [L, L]), C('Composite', [L, L])]), L])]),
+        'c_l_o17_o_l': C('Composite', [L, O([L] * 17), O([C('Composite', [L, L]), C('Resumable', [L, L])]), L]),
+        'c_nested_o9_o': C('Composite', [L, C('Resumable', [O([C('Composite', [L, L])] + [L] * 8), O([C('Composite', [L, L]), C('Composite', [L, L])])])]),
         'deep8': None, 'mixwide': C('Composite', [C('Resumable', [L] * 3, True), O([L, C('Composite', [L] * 5), L], True), C('Composite', [L] * 6)] * 2, True),
     }
     d = L
